@@ -2,6 +2,7 @@ package dataframe
 
 import (
 	"fmt"
+	"math"
 	"os"
 
 	"github.com/wcharczuk/go-chart/v2"
@@ -63,8 +64,20 @@ func (df *DataFrame) BarPlot(columnName, outputFile string) error {
 		if !ok {
 			return fmt.Errorf("non-numeric data found in column '%s'", columnName)
 		}
+		if math.IsNaN(val) || math.IsInf(val, 0) {
+			return fmt.Errorf("non-finite value %v found in column '%s'", val, columnName)
+		}
 		values[i] = val
 		labels[i] = fmt.Sprintf("%v", i)
+	}
+
+	// the chart library never returns when the range of the bars is not a finite number
+	lo, hi := math.Inf(1), math.Inf(-1)
+	for _, val := range values {
+		lo, hi = math.Min(lo, val), math.Max(hi, val)
+	}
+	if len(values) > 0 && math.IsInf(hi-lo, 0) {
+		return fmt.Errorf("value range of column '%s' is too large to plot", columnName)
 	}
 
 	graph := chart.BarChart{
